@@ -223,6 +223,9 @@ func TestVerif_C14(t *testing.T) {
 		results := make([]c14Res, len(jobs))
 		var seq atomic.Int64
 		r.ParallelFor(len(jobs), func(i int) {
+			if r.OutOfTime() {
+				return // budget: the job is skipped (results[i] stays empty), the run is marked capped
+			}
 			j := &jobs[i]
 			h := hs[j.hist]
 			id := seq.Add(1)
@@ -342,8 +345,10 @@ func TestVerif_C14(t *testing.T) {
 	var phases []phase
 	for ci := range cfgs {
 		phases = append(phases, phase{name: "base-schedules x every-restart/" + cfgs[ci].name, cfg: ci, schedFrom: 0, schedTo: 5, restarts: allRestarts, checkRefs: ci == 0})
+		if ci == 0 {
+			phases = append(phases, phase{name: "extras", cfg: 0, extras: true})
+		}
 	}
-	phases = append(phases, phase{name: "extras", cfg: 0, extras: true})
 	for ci := range cfgs {
 		if ci > 0 && !ve.Thorough() {
 			break // quick: deviation schedules under the default trie configuration only
@@ -376,13 +381,25 @@ func TestVerif_C14(t *testing.T) {
 				}
 			}
 			if ph.extras {
-				// LRU caches enabled (config default)
-				jobs = append(jobs, c14Job{hist: hi, sched: schedNames[0], flush: scheds[0], restart: 0, cfgName: tc.name, node: c14NodeCfg{Stored: true, InMem: true}})
-				jobs = append(jobs, c14Job{hist: hi, sched: schedNames[1], flush: scheds[1], restart: rounds/2 + 1, cfgName: tc.name, node: c14NodeCfg{Stored: false, InMem: true}})
-				jobs = append(jobs, c14Job{hist: hi, sched: schedNames[2], flush: scheds[2], restart: 0, cfgName: tc.name, node: c14NodeCfg{Stored: true, InMem: true}})
-				if ve.Thorough() {
-					for si := 0; si < 5; si++ {
-						jobs = append(jobs, c14Job{hist: hi, sched: schedNames[si], flush: scheds[si], restart: rounds/2 + si, cfgName: tc.name, node: c14NodeCfg{Stored: si%2 == 1, InMem: true}})
+				// (ordered by how much they add: a budget cap cuts from the end)
+				// block queue batches: rounds s..s+k-1 persisted at once (single committedUpTo)
+				for _, k := range ve.Pick([]int{3, 7}, []int{3, 7, 2, 5, 10}) {
+					for st := 1; st+k-1 <= rounds; st++ {
+						for _, si := range []int{0, 1} {
+							jobs = append(jobs, c14Job{hist: hi, sched: schedNames[si], flush: scheds[si], burstAt: st, burstN: k, cfgName: tc.name, node: c14NodeCfg{Stored: (st+k)%2 == 0, InMem: true, NoLRU: true}})
+						}
+					}
+				}
+				// catchpoint tracking enabled at the restart (trie rebuilt from the tables)
+				for _, si := range []int{0, 1, 2} {
+					for rs := 1; rs <= rounds-6; rs++ {
+						jobs = append(jobs, c14Job{hist: hi, sched: schedNames[si], flush: scheds[si], restart: rs, reopen: false, cfgName: tc.name, node: c14NodeCfg{Stored: (si+rs)%2 == 0, InMem: true, NoLRU: true, LateEnable: true}})
+					}
+				}
+				// other MaxAcctLookback values
+				for _, mal := range ve.Pick([]uint64{2}, []uint64{1, 2, 8}) {
+					for si := 0; si < ve.Pick(2, 5); si++ {
+						jobs = append(jobs, c14Job{hist: hi, sched: schedNames[si], flush: scheds[si], restart: rounds / 2, cfgName: tc.name, node: c14NodeCfg{Stored: true, InMem: true, NoLRU: true, MaxAcctLookback: mal}})
 					}
 				}
 				// file backed, process restart (close + OpenLedger)
@@ -399,25 +416,36 @@ func TestVerif_C14(t *testing.T) {
 						jobs = append(jobs, c14Job{hist: hi, sched: schedNames[si], flush: scheds[si], restart: rs, reopen: true, cfgName: tc.name, node: c14NodeCfg{Stored: (si+rs)%2 == 0, NoLRU: true}})
 					}
 				}
-				// catchpoint tracking enabled at the restart (trie rebuilt from the tables)
-				for _, si := range []int{0, 1, 2} {
-					for rs := 1; rs <= rounds-6; rs++ {
-						jobs = append(jobs, c14Job{hist: hi, sched: schedNames[si], flush: scheds[si], restart: rs, reopen: false, cfgName: tc.name, node: c14NodeCfg{Stored: (si+rs)%2 == 0, InMem: true, NoLRU: true, LateEnable: true}})
+				// LRU caches enabled (config default)
+				jobs = append(jobs, c14Job{hist: hi, sched: schedNames[0], flush: scheds[0], restart: 0, cfgName: tc.name, node: c14NodeCfg{Stored: true, InMem: true}})
+				jobs = append(jobs, c14Job{hist: hi, sched: schedNames[1], flush: scheds[1], restart: rounds/2 + 1, cfgName: tc.name, node: c14NodeCfg{Stored: false, InMem: true}})
+				jobs = append(jobs, c14Job{hist: hi, sched: schedNames[2], flush: scheds[2], restart: 0, cfgName: tc.name, node: c14NodeCfg{Stored: true, InMem: true}})
+				if ve.Thorough() {
+					for si := 0; si < 5; si++ {
+						jobs = append(jobs, c14Job{hist: hi, sched: schedNames[si], flush: scheds[si], restart: rounds/2 + si, cfgName: tc.name, node: c14NodeCfg{Stored: si%2 == 1, InMem: true}})
 					}
 				}
-				// block queue batches: rounds s..s+k-1 persisted at once (single committedUpTo)
-				for _, k := range ve.Pick([]int{3, 7}, []int{2, 3, 5, 7, 10}) {
-					for st := 1; st+k-1 <= rounds; st++ {
-						for _, si := range []int{0, 1} {
-							jobs = append(jobs, c14Job{hist: hi, sched: schedNames[si], flush: scheds[si], burstAt: st, burstN: k, cfgName: tc.name, node: c14NodeCfg{Stored: (st+k)%2 == 0, InMem: true, NoLRU: true}})
-						}
+			}
+		}
+		// interleave the histories (jobs were generated history by history) so that a budget cap
+		// does not leave whole histories out; the first job of every history stays its
+		// reference run (every-block, no restart) in the first phase.
+		{
+			per := make([][]c14Job, len(hs))
+			for _, j := range jobs {
+				per[j.hist] = append(per[j.hist], j)
+			}
+			jobs = jobs[:0]
+			for k := 0; ; k++ {
+				any := false
+				for hi := range per {
+					if k < len(per[hi]) {
+						jobs = append(jobs, per[hi][k])
+						any = true
 					}
 				}
-				// other MaxAcctLookback values
-				for _, mal := range ve.Pick([]uint64{2}, []uint64{1, 2, 8}) {
-					for si := 0; si < ve.Pick(2, 5); si++ {
-						jobs = append(jobs, c14Job{hist: hi, sched: schedNames[si], flush: scheds[si], restart: rounds / 2, cfgName: tc.name, node: c14NodeCfg{Stored: true, InMem: true, NoLRU: true, MaxAcctLookback: mal}})
-					}
+				if !any {
+					break
 				}
 			}
 		}
